@@ -453,6 +453,21 @@ pub fn run_segment(root: &Path, job: &Job, from: usize, to: usize, last: bool, m
     if job.cfg.gate_bg {
         verif::set_bg_sleep_ms(1);
     }
+    let recorder: Option<std::sync::Arc<Recorder>> = if job.trace || !job.faults.is_empty() {
+        let r = std::sync::Arc::new(Recorder::new(root, job.faults.clone()));
+        verif::install_hooks(Some(r.clone()));
+        Some(r)
+    } else {
+        verif::install_hooks(None);
+        None
+    };
+    if from == 0 && !job.pre_image.is_empty() {
+        if let Err(e) = materialise(root, &job.pre_image) {
+            emit(&format!("X\"materialise failed: {}\"", e));
+            emit("E");
+            return;
+        }
+    }
     let mut sym = Sym::new(&job.ops);
     for op in &job.ops[..from] {
         sym.step(op);
@@ -460,6 +475,10 @@ pub fn run_segment(root: &Path, job: &Job, from: usize, to: usize, last: bool, m
     let mut ctx = Ctx { root: root.to_path_buf(), cfg: job.cfg.clone(), inst: [None, None, None], sym };
     // (re)open what is open at this point
     let reopen_after_restart = from > 0;
+    if !job.pre_image.is_empty() {
+        // a recovery run happens later than every incarnation of the recorded workload
+        ctx.sym.incarnations += 100;
+    }
     let open_res = ctx.reopen_all();
     if reopen_after_restart {
         // the Restart op itself is observed by the child that comes up after it
@@ -475,8 +494,14 @@ pub fn run_segment(root: &Path, job: &Job, from: usize, to: usize, last: bool, m
     } else if open_res != Res::Ok {
         emit(&format!("X{}", serde_json::to_string(&open_res).unwrap()));
     }
-    for op in &job.ops[from..to] {
+    for (oi, op) in job.ops[from..to].iter().enumerate() {
+        if let Some(r) = &recorder {
+            r.mark(from + oi, false);
+        }
         let res = ctx.exec(op);
+        if let Some(r) = &recorder {
+            r.mark(from + oi, true);
+        }
         let (counts, clean) = ctx.post();
         let o = Obs { res, counts, clean };
         emit(&format!("O{}", serde_json::to_string(&o).unwrap()));
@@ -494,6 +519,13 @@ pub fn run_segment(root: &Path, job: &Job, from: usize, to: usize, last: bool, m
     for i in 0..3 {
         ctx.close_inst(i);
     }
+    if let Some(r) = &recorder {
+        if job.trace {
+            let evs = r.evs.lock().unwrap();
+            emit(&format!("T{}", serde_json::to_string(&*evs).unwrap()));
+        }
+        verif::install_hooks(None);
+    }
     emit("E");
 }
 
@@ -505,4 +537,117 @@ fn dig(ctx: &Ctx) -> String {
         },
         None => "null".to_string(),
     }
+}
+
+// ---------------------------------------------------------------------------------
+// E2: I/O trace recorder, fault answers and directory-image materialisation
+// ---------------------------------------------------------------------------------
+
+pub struct Recorder {
+    root: String,
+    pub evs: std::sync::Mutex<Vec<Ev>>,
+    faults: Vec<(String, i64)>,
+    counters: std::sync::Mutex<std::collections::HashMap<String, i64>>,
+    batch_no: std::sync::atomic::AtomicI64,
+}
+
+impl Recorder {
+    pub fn new(root: &Path, faults: Vec<(String, i64)>) -> Self {
+        Recorder {
+            root: root.to_string_lossy().into_owned(),
+            evs: Default::default(),
+            faults,
+            counters: Default::default(),
+            batch_no: std::sync::atomic::AtomicI64::new(-1),
+        }
+    }
+    fn rel(&self, p: &str) -> String {
+        p.strip_prefix(&self.root).map(|s| s.trim_start_matches('/').to_string()).unwrap_or_else(|| format!("!{}", p))
+    }
+    pub fn mark(&self, op: usize, end: bool) {
+        self.evs.lock().unwrap().push(Ev::Mark { op, end });
+    }
+}
+
+impl verif::Hooks for Recorder {
+    fn io(&self, ev: &verif::Io<'_>) {
+        use verif::Io;
+        let e = match ev {
+            Io::Write { path, off, data, osync } => Ev::Write { f: self.rel(path), off: *off, data: hex(data), osync: *osync },
+            Io::Flush { path } => Ev::Flush { f: self.rel(path) },
+            Io::BatchWrite { path, off, data, idx } => Ev::BatchWrite { f: self.rel(path), off: *off, data: hex(data), idx: *idx },
+            Io::BatchSubmit { n } => {
+                self.batch_no.fetch_add(1, std::sync::atomic::Ordering::SeqCst);
+                Ev::BatchSubmit { n: *n }
+            }
+            Io::BatchDone => Ev::BatchDone,
+            Io::Mkdir { path } => Ev::Mkdir { p: self.rel(path) },
+            Io::Create { path } => Ev::Create { f: self.rel(path) },
+            Io::SetLen { path, len } => Ev::SetLen { f: self.rel(path), len: *len },
+            Io::FsyncFile { path } => Ev::FsyncFile { f: self.rel(path) },
+            Io::DirSync { path } => Ev::DirSync { p: self.rel(path) },
+            Io::WriteFile { path, data } => Ev::WriteFile { f: self.rel(path), data: hex(data) },
+            Io::Rename { from, to } => Ev::Rename { from: self.rel(from), to: self.rel(to) },
+            Io::Unlink { path } => Ev::Unlink { f: self.rel(path) },
+        };
+        self.evs.lock().unwrap().push(e);
+    }
+    fn fault(&self, site: &'static str) -> Option<std::io::Error> {
+        let mut c = self.counters.lock().unwrap();
+        let n = c.entry(site.to_string()).or_insert(0);
+        let cur = *n;
+        *n += 1;
+        if self.faults.iter().any(|(s, k)| s == site && *k == cur) {
+            Some(std::io::Error::new(std::io::ErrorKind::Other, format!("injected fault at {}#{}", site, cur)))
+        } else {
+            None
+        }
+    }
+    fn cqe(&self, idx: usize, res: i32) -> i32 {
+        let b = self.batch_no.load(std::sync::atomic::Ordering::SeqCst);
+        let key = format!("cqe:{}:{}", b, idx);
+        for (s, v) in self.faults.iter() {
+            if *s == key {
+                return *v as i32;
+            }
+        }
+        res
+    }
+}
+
+/// Applies recorded events to `root` (what the file system would hold if exactly these
+/// mutations had completed).
+pub fn materialise(root: &Path, evs: &[Ev]) -> std::io::Result<()> {
+    use std::os::unix::fs::FileExt;
+    for e in evs {
+        match e {
+            Ev::Mkdir { p } => std::fs::create_dir_all(root.join(p))?,
+            Ev::Create { f } => {
+                if let Some(parent) = root.join(f).parent() {
+                    std::fs::create_dir_all(parent)?;
+                }
+                std::fs::File::create(root.join(f))?;
+            }
+            Ev::SetLen { f, len } => {
+                let fh = std::fs::OpenOptions::new().write(true).open(root.join(f))?;
+                fh.set_len(*len)?;
+            }
+            Ev::Write { f, off, data, .. } | Ev::BatchWrite { f, off, data, .. } => {
+                let fh = std::fs::OpenOptions::new().write(true).open(root.join(f))?;
+                fh.write_all_at(&unhex(data), *off)?;
+            }
+            Ev::WriteFile { f, data } => {
+                if let Some(parent) = root.join(f).parent() {
+                    std::fs::create_dir_all(parent)?;
+                }
+                std::fs::write(root.join(f), unhex(data))?;
+            }
+            Ev::Rename { from, to } => std::fs::rename(root.join(from), root.join(to))?,
+            Ev::Unlink { f } => {
+                let _ = std::fs::remove_file(root.join(f));
+            }
+            Ev::Mark { .. } | Ev::Flush { .. } | Ev::BatchSubmit { .. } | Ev::BatchDone | Ev::FsyncFile { .. } | Ev::DirSync { .. } => {}
+        }
+    }
+    Ok(())
 }
